@@ -15,6 +15,7 @@ PROPS["C05"] = {
         T("SV.commitBranch_acks_committed", "and a call is acknowledged only when that commit index has reached its index"),
         T("SV.pipelineRun_inv", "the stepped pipelined replication (pipelineReplicate / pipelineSend / pipelineDecode), every order of sends and deliveries, every follower, every failing or crashing write on it: the index entered into the commitment table for the follower is the last entry of a delivered request that the follower acknowledged in that request's term, and every request queued or delivered was built by replSetup from the leader's own log"),
         T("SV.pipeDecode_refusal_ends", "a refusal or a newer term in a pipelined answer credits nothing and ends the pipeline"),
+        T("SV.pipelineRun_credit_is_held", "the two composed over a whole pipelined run started against a follower with a well-formed log (every order of sends and deliveries, every fault): a non-zero credited index is the last entry of a request that a follower state with a well-formed log acknowledged, which therefore durably held it, above its snapshot, in the request's term"),
         T("SV.ack_means_held", "what an acknowledgement means on the stepped follower, any state, any armed write failure or crash: after answering success it durably holds every entry of the request above its snapshot, in the request's term - so the index a leader credits (afterAE_ack_moves_up, pipelineRun_inv) is held by the follower it is credited to"),
         T("C05.commit_is_majority", "every commitment step: monotone; a change needs a strict voter majority at the new index, >= startIndex, and is maximal"),
         T("C05.commit_monotone", "commit index monotone over every operation sequence"),
